@@ -1,9 +1,13 @@
 """C42 — Subprocess exit callback runs exactly once with the right status; wait_for_exit resolves/raises accordingly.
 
 REAL children (`/bin/sh -c ...`) on a REAL asyncio loop.  A case is a batch of 1..16 children; each
-child has a planned fate (exit code / self-sent signal), a registration timing (the exit callback is
+child has a planned fate (exit code / self-sent signal, with core dumps disabled or ENABLED in the
+child - `ulimit -c <limit>` and a scratch cwd - so that the wait status carries the 0x80 core flag),
+a registration timing (the exit callback is
 registered BEFORE the child can exit - it blocks on a pipe the harness closes later - or AFTER it
-has exited and is a zombie) and an API (set_exit_callback, wait_for_exit with raise_error on/off).
+has exited and is a zombie, with no loop turn in between - or LATE: after it has exited AND the loop
+has run for a while: SIGCHLDs were handled, other registered children exited and were reported while
+this one was an unregistered zombie) and an API (set_exit_callback, wait_for_exit with raise_error on/off).
 
 Ground truth for the status is not the plan but the kernel: `waitid(P_PID, pid, WEXITED|WNOWAIT)`
 reports how each child really ended without reaping it (so tornado's own waitpid is not disturbed).
@@ -17,8 +21,10 @@ from __future__ import annotations
 
 import asyncio
 import os
+import shutil
 import signal
 import subprocess
+import tempfile
 
 from vf import core
 
@@ -29,23 +35,34 @@ PROP = "C42"
 META = {
     "level": "exploration",
     "technique": "real child processes on a real loop; kernel-reported fate (waitid WNOWAIT) as oracle; exactly-once counting at a structural barrier",
-    "level_text": "Batches of 1-16 real /bin/sh children whose fate (exit codes 0..255, eleven terminating signals incl. core-dumping ones) and registration timing (before exit / after the child is a zombie; SIGCHLD handler installed beforehand or not) are chosen by the generator are run through tornado.process.Subprocess with set_exit_callback or wait_for_exit(raise_error on/off); callback counts and values are compared with what the kernel reports for each pid, after all children of the batch are dead and again after extra SIGCHLDs.",
+    "level_text": "Batches of 1-16 real /bin/sh children whose fate (exit codes 0..255, nineteen terminating signals; core-dumping signals both with core dumps disabled and with core dumps enabled in the child, RLIMIT_CORE unlimited/100/8/1 blocks in a scratch cwd, so that the kernel sets the core flag in the wait status) and registration timing (before exit / after the child is a zombie / late: the child became a zombie, then the loop ran - its own SIGCHLD handled, optionally extra SIGCHLDs, optionally other registered children exiting and being reported - and only then is it registered; SIGCHLD handler installed beforehand or not) are chosen by the generator are run through tornado.process.Subprocess with set_exit_callback or wait_for_exit(raise_error on/off); callback counts and values are compared with what the kernel reports for each pid, after all children of the batch are dead and again after extra SIGCHLDs.",
     "level_note": "Linux only. The expected status is read from the kernel with waitid(WNOWAIT) before tornado reaps; the barrier relies on SIGCHLD being queued before a zombie becomes visible to waitid (Linux exit_notify ordering) in a single-threaded process.",
     "design_ref": "DESIGN.md §4 C42",
     "engine": "monitor",
 }
-RULE = ("cases are batches of children (fate, timing before/after exit, API, handler pre-installed); non-trivial if the batch "
+RULE = ("cases are batches of children (fate incl. core-dump limit, timing before/after/late relative to exit and to the "
+        "handling of SIGCHLDs, API, handler pre-installed, mid-phase plan); non-trivial if the batch "
         "has a child with a non-zero exit status or a signal; distinct by the batch description; children are counted too")
 FLOORS = {"quick": 30, "thorough": 1000}
 ASSUMPTIONS = ["Linux waitid(WNOWAIT) semantics; SIGCHLD queued before the zombie is visible",
                "the shard process is single-threaded and runs the loop in its main thread",
                "/bin/sh with builtin kill and read"]
 REQUIRED_COUNTERS = ["oracle_evals", "children", "registered_before_exit", "registered_after_exit", "signal_fates",
-                     "nonzero_exit_fates", "wait_for_exit_raise_checks", "extra_sigchld_rounds", "concurrent_batches"]
+                     "nonzero_exit_fates", "wait_for_exit_raise_checks", "extra_sigchld_rounds", "concurrent_batches",
+                     "registered_late_exit", "late_reg_after_other_exit_reported", "late_reg_while_other_still_registered",
+                     "core_flag_fates"]
 SHARD_TIMEOUT = {"quick": 300, "thorough": 3600}
 
 SIGNALS = [1, 15, 9, 10, 12, 11, 6, 13, 14, 7, 8]     # HUP TERM KILL USR1 USR2 SEGV ABRT PIPE ALRM BUS FPE
 CODES = [0, 0, 1, 2, 127, 128, 255, 126, 3, 64]
+# signals whose default action dumps core: QUIT ILL TRAP ABRT BUS FPE SEGV XCPU XFSZ SYS
+CORE_SIGNALS = [3, 4, 5, 6, 7, 8, 11, 24, 25, 31]
+# RLIMIT_CORE given to `ulimit -c` in the child (blocks): the kernel sets the core flag when a (possibly truncated)
+# dump was written; a limit too small for even the headers (1) or a non-dumping signal leaves the flag clear
+CORE_LIMITS = ["unlimited", "unlimited", "unlimited", 100, 8, 1]
+# exit codes that look like "signal + core flag" / "signal" in one byte
+CORE_LOOKALIKE_CODES = [131, 134, 139, 136, 159, 143, 137]
+TIMINGS = ["before", "before", "after", "late", "late"]
 APIS = ["callback", "wait_raise", "wait_noraise"]
 
 
@@ -61,13 +78,23 @@ def gen_cases(spec):
         size = rng.choice([1, 1, 2, 3, 4, 6, 8, 16]) if rng.random() < 0.9 else rng.randint(9, 16)
         kids = []
         for _ in range(size):
-            if rng.random() < 0.45:
-                fate = ("signal", rng.choice(SIGNALS))
+            r = rng.random()
+            if r < 0.25:
+                fate = ("signal", rng.choice(SIGNALS + CORE_SIGNALS))
+            elif r < 0.5:
+                # core dumps enabled in the child; mostly core-dumping signals, some that do not dump
+                fate = ("core", rng.choice(CORE_SIGNALS * 3 + SIGNALS), rng.choice(CORE_LIMITS))
             else:
-                fate = ("exit", rng.choice(CODES) if rng.random() < 0.6 else rng.randint(0, 255))
-            kids.append((fate, rng.choice(["before", "after"]), rng.choice(APIS)))
+                x = rng.random()
+                fate = ("exit", rng.choice(CODES) if x < 0.5 else rng.choice(CORE_LOOKALIKE_CODES) if x < 0.6
+                        else rng.randint(0, 255))
+            kids.append((fate, rng.choice(TIMINGS), rng.choice(APIS)))
+        nbefore = sum(1 for k in kids if k[1] == "before")
         yield {"kids": kids, "preinit": rng.random() < 0.5, "interleave": rng.random() < 0.5,
-               "coalesce": size > 1 and rng.random() < 0.5}
+               "coalesce": size > 1 and rng.random() < 0.5,
+               # what happens between the death of the "late" children and their registration
+               "mid": {"release": rng.choice([0, 0, 1, 1, 2, nbefore]), "extra_sigchld": rng.random() < 0.3,
+                       "turns": rng.choice([0, 1, 3, 10, 30])}}
 
 
 def directed_cases():
@@ -78,11 +105,59 @@ def directed_cases():
     yield {"kids": [(("signal", 9), "after", "wait_raise")], "preinit": False, "interleave": False}
     yield {"kids": [(("exit", 3), "after", "callback"), (("signal", 15), "before", "wait_noraise"),
                     (("exit", 255), "before", "wait_raise")], "preinit": True, "interleave": True}
+    # A exits unregistered; B is registered and stays so while A's SIGCHLD is handled; A is registered afterwards
+    yield {"kids": [(("exit", 7), "late", "callback"), (("exit", 0), "before", "callback")],
+           "preinit": False, "interleave": False, "mid": {"release": 0, "extra_sigchld": False, "turns": 10}}
+    # ... and B (registered) exits and is reported in between
+    yield {"kids": [(("exit", 0), "before", "callback"), (("exit", 7), "late", "wait_noraise"),
+                    (("signal", 15), "late", "wait_raise"), (("exit", 0), "late", "callback"),
+                    (("exit", 1), "before", "wait_noraise")],
+           "preinit": True, "interleave": False, "mid": {"release": 1, "extra_sigchld": True, "turns": 3}}
+    yield {"kids": [(("signal", 9), "late", "callback")], "preinit": True, "interleave": False,
+           "mid": {"release": 0, "extra_sigchld": True, "turns": 30}}
+    # killed by core-dumping signals with core dumps enabled (wait status has the 0x80 flag) vs look-alike exit codes
+    yield {"kids": [(("core", 3, "unlimited"), "before", "callback"), (("core", 6, "unlimited"), "after", "wait_raise"),
+                    (("core", 11, 100), "before", "wait_noraise"), (("core", 15, "unlimited"), "before", "callback"),
+                    (("exit", 131), "before", "callback"), (("core", 8, 8), "late", "wait_raise"),
+                    (("signal", 3), "before", "callback"), (("core", 7, 1), "after", "callback")],
+           "preinit": False, "interleave": True, "mid": {"release": 2, "extra_sigchld": False, "turns": 1}}
 
 
 def script_for(fate, timing):
-    die = f"exit {fate[1]}" if fate[0] == "exit" else f"ulimit -c 0; kill -{fate[1]} $$; exit 99"
+    if fate[0] == "exit":
+        die = f"exit {fate[1]}"
+    elif fate[0] == "core":
+        # core dumps enabled for this child only (its cwd is a scratch directory)
+        die = f"ulimit -c {fate[2]} 2>/dev/null; kill -{fate[1]} $$; exit 99"
+    else:
+        die = f"ulimit -c 0; kill -{fate[1]} $$; exit 99"
     return ("read x; " if timing == "before" else "") + die
+
+
+def _scratch_parent():
+    """As a shard worker: the runner's own temp directory (argv: -m vf.core --worker PROP spec out), which the runner
+    removes even when the shard is killed on timeout; otherwise the default temp directory."""
+    import sys
+    if len(sys.argv) >= 5 and sys.argv[1] == "--worker":
+        d = os.path.dirname(os.path.abspath(sys.argv[3]))
+        if os.path.isdir(d) and os.access(d, os.W_OK):
+            return d
+    return None
+
+
+def _subdir(scratch, idx):
+    # one directory per child: concurrent dumps to one "core" file exclude each other
+    d = os.path.join(scratch, f"k{idx}")
+    os.mkdir(d)
+    return d
+
+
+def core_pattern():
+    try:
+        with open("/proc/sys/kernel/core_pattern") as f:
+            return f.read().strip()
+    except OSError:
+        return "?"
 
 
 def kernel_fate(pid, block=True):
@@ -95,7 +170,12 @@ def kernel_fate(pid, block=True):
         return None
     if info.si_code == os.CLD_EXITED:
         return info.si_status
+    if info.si_code == os.CLD_DUMPED:
+        DUMPED.add(pid)
     return -info.si_status
+
+
+DUMPED = set()      # pids the kernel reported as CLD_DUMPED (wait status will carry the core flag)
 
 
 class Kid:
@@ -111,7 +191,8 @@ class Kid:
             self.sp.set_exit_callback(self.calls.append)
         else:
             self.future = self.sp.wait_for_exit(raise_error=(self.api == "wait_raise"))
-        ctx.count("registered_before_exit" if self.timing == "before" else "registered_after_exit")
+        ctx.count({"before": "registered_before_exit", "after": "registered_after_exit",
+                   "late": "registered_late_exit"}[self.timing])
 
     def describe(self):
         return {"child": self.idx, "planned": list(self.fate), "timing": self.timing, "api": self.api,
@@ -140,26 +221,56 @@ async def run_batch(case, ctx):
     kids = [Kid(i, tuple(f), t, a) for i, (f, t, a) in enumerate(case["kids"])]
     if len(kids) > 1:
         ctx.count("concurrent_batches")
+    scratch = None
+    if any(k.fate[0] == "core" for k in kids):
+        # cwd of the children that may dump core; removed with everything in it at the end of the batch
+        scratch = tempfile.mkdtemp(prefix="vf-c42-core-", dir=_scratch_parent())
     if case["preinit"]:
         Subprocess.initialize()
     try:
         for k in kids:
             k.sp = Subprocess(["/bin/sh", "-c", script_for(k.fate, k.timing)],
                               stdin=subprocess.PIPE if k.timing == "before" else subprocess.DEVNULL,
-                              stdout=subprocess.DEVNULL, stderr=subprocess.DEVNULL)
+                              stdout=subprocess.DEVNULL, stderr=subprocess.DEVNULL,
+                              cwd=_subdir(scratch, k.idx) if k.fate[0] == "core" else None)
             ctx.count("children")
             if k.timing == "before" and not case["interleave"]:
                 k.register(ctx)
         # children that must be dead before registration: wait (kernel) until each is a zombie
         for k in kids:
-            if k.timing == "after":
+            if k.timing in ("after", "late"):
                 k.truth = kernel_fate(k.sp.pid)
-                if case["interleave"]:
+                if case["interleave"] and k.timing == "after":
                     k.register(ctx)
         for k in kids:
             if k.timing == "before" and case["interleave"]:
                 k.register(ctx)
             if k.timing == "after" and not case["interleave"]:
+                k.register(ctx)
+        # mid phase: the "late" children are unregistered zombies; the loop runs, their SIGCHLD (already queued, see
+        # the barrier argument in the module docstring) is handled if a handler is installed, optionally further
+        # SIGCHLDs arrive and some registered children exit and are reported; only then are the late ones registered
+        late = [k for k in kids if k.timing == "late"]
+        released = []
+        if late:
+            mid = case.get("mid") or {"release": 0, "extra_sigchld": False, "turns": 3}
+            befores = [k for k in kids if k.timing == "before"]
+            released = befores[:mid["release"]]
+            for k in released:
+                k.sp.stdin.close()
+            for k in released:                      # no await since the release: tornado cannot have reaped them
+                k.truth = kernel_fate(k.sp.pid)
+            if mid["extra_sigchld"]:
+                os.kill(os.getpid(), signal.SIGCHLD)
+            if released:
+                await turns(released)
+            for _ in range(mid["turns"]):
+                await asyncio.sleep(0)
+            if released and all(done(k) for k in released):
+                ctx.count("late_reg_after_other_exit_reported")
+            if any(k.sp.pid in Subprocess._waiting for k in kids if k.timing != "late"):
+                ctx.count("late_reg_while_other_still_registered")
+            for k in late:
                 k.register(ctx)
         # release every blocked child in the same instant; with "coalesce" SIGCHLD is blocked until all of them
         # are dead, so the kernel delivers a single pending SIGCHLD for the whole batch (standard signals do
@@ -169,13 +280,13 @@ async def run_batch(case, ctx):
             signal.pthread_sigmask(signal.SIG_BLOCK, {signal.SIGCHLD})
             ctx.count("coalesced_sigchld_batches")
         for k in kids:
-            if k.timing == "before":
+            if k.timing == "before" and k not in released:
                 k.sp.stdin.close()
         # barrier: every child is dead (zombie or reaped). No await happened since the release, so
         # tornado cannot have reaped a "before" child yet and the kernel still tells us its fate.
         try:
             for k in kids:
-                if k.timing == "before":
+                if k.timing == "before" and k not in released:
                     k.truth = kernel_fate(k.sp.pid)
         finally:
             if coalesce:
@@ -220,7 +331,10 @@ async def run_batch(case, ctx):
             Subprocess._waiting.pop(k.sp.pid, None)
             if k.sp.proc.returncode is None:
                 k.sp.proc.returncode = -999
+            DUMPED.discard(k.sp.pid)
         Subprocess.uninitialize()
+        if scratch is not None:
+            shutil.rmtree(scratch, ignore_errors=True)
 
 
 def judge(kids, case, ctx):
@@ -232,13 +346,19 @@ def judge(kids, case, ctx):
             raise RuntimeError(f"harness could not observe the fate of child {k.describe()}")
         if want != planned:
             ctx.count("fate_differs_from_plan")
+        if k.sp.pid in DUMPED:
+            ctx.count("core_flag_fates")         # the kernel dumped core: the wait status has 0x80 set
+        elif k.fate[0] == "core":
+            ctx.count("core_enabled_but_no_core_flag")
+            if core_pattern().startswith("|"):
+                ctx.count("core_pattern_piped_to_handler")     # diagnosis when core_flag_fates stays 0 (=> INCONCLUSIVE)
         if want < 0:
             ctx.count("signal_fates")
         elif want > 0:
             ctx.count("nonzero_exit_fates")
         state = kernel_fate(k.sp.pid, block=False)
         wit = {"batch": [x.describe() for x in kids], "child": k.describe(), "preinit": case["preinit"],
-               "interleave": case["interleave"],
+               "interleave": case["interleave"], "mid": case.get("mid"), "kernel_dumped_core": k.sp.pid in DUMPED,
                "state": {"still_zombie": state not in ("reaped", None), "in_waiting_table": k.sp.pid in Subprocess._waiting,
                          "sigchld_pending": signal.SIGCHLD in signal.sigpending(),
                          "returncode_attr": k.sp.returncode}}
@@ -281,13 +401,15 @@ def judge(kids, case, ctx):
 def _value_mech(prefix, got, want):
     if want < 0 and got == -want:
         return f"{prefix}/signal-number-not-negated"
+    if want < 0 and got == -((-want) | 0x80):
+        return f"{prefix}/core-flag-folded-into-signal-number"
     if want < 0:
         return f"{prefix}/wrong-value-for-signal"
     return f"{prefix}/wrong-value-for-exit-status"
 
 
 def run_case(case, ctx):
-    nontrivial = any((f[0] == "signal") or f[1] != 0 for f, _t, _a in case["kids"])
+    nontrivial = any((f[0] in ("signal", "core")) or f[1] != 0 for f, _t, _a in case["kids"])
     new = ctx.mark(repr(case), nontrivial)
     if new and nontrivial and len(ctx.samples) < 3:
         ctx.sample(case)
